@@ -58,7 +58,8 @@ class CapiCheck:
             "dereference, subscript); cross-checked natively by compiling the same text (bounded)",
             "AddrSpec (contracts/capi.py: step_spec) as the reading of the documented layout (Architecture.md, docs/architecture/types.rst)",
             "class-layout invariants StructLayout/ArrayLayout as preconditions on path parts (field.offset >= 0, "
-            "_data_offset = 8*[size word] + 8*ndyn + 8*rank*[ndyn>0 and rank>1], _strides present iff static shape or rank 1)",
+            "_data_offset = 8*[size word] + 8*ndyn + 8*rank*[ndyn>0 and rank>1], _strides present iff static shape or rank 1): proved as "
+            "postconditions of MetaStruct.__new__ / MetaArray.__new__ in checks/types_vc.py (groups struct_layout_loops, array_layout)",
             "sizeof(C type of a scalar kind) == numpy itemsize of that kind (table obligation over scalar.py, checked natively)",
             "integer arithmetic of the emitted C treated as mathematical (int64 range not proved in this version)",
         ]
@@ -91,6 +92,12 @@ class CapiCheck:
             from . import specsrc_vc
 
             t += specsrc_vc.targets(self.PROP)
+        if self.PROP == "C02":
+            # the Python side of the claim: the library's own accessors address AddrSpec too (views: HandleInv), and the class-layout
+            # invariants assumed on path parts are postconditions of the metaclasses
+            from . import types_vc
+
+            t += types_vc.targets("C02")
         return t
 
     # ------------------------------------------------------------------ bounded native part
